@@ -93,10 +93,20 @@ def run(tier):
     for c in configs:
         exp = c["outcome"]
         counts[exp] = counts.get(exp, 0) + 1
-        if exp == "degenerate":
-            continue   # a component forced to 0 %: the statement speaks about positive values only
         text = cfg_text(c)
         got, S, pct, ab, msg, obj = observe(g, text, c["ext"])
+        if exp == "degenerate":
+            # a component forced to 0 %: the statement speaks about positive values, so no outcome class is demanded - but whatever is
+            # reported as solved has to be consistent bookkeeping
+            if got == "solved":
+                bad = [i for i in range(len(pct)) if pct[i] is None or ab[i] is None]
+                if not bad and (abs(sum(pct) - 100) > 1e-6 or any(abs(ab[i] - pct[i] * S / 100) > 1e-9 * max(1, S) for i in range(len(pct)))):
+                    bad = ["inconsistent"]
+                if bad:
+                    v.violation(f"C12:solved-but-incomplete-bookkeeping:{signature(c)}", f"{text} (system mass {c['ext'] or 'not given'}) is reported generable but "
+                                f"percentages {pct} / absolute masses {ab} / system mass {S} are incomplete or inconsistent", {"system": text, "system_molweight": c["ext"] or None})
+            replayed += 1
+            continue
         replayed += 1
         sig = signature(c)
         rep = {"system": text, "system_molweight": c["ext"] or None, "expected": exp, "why": c.get("why", ""), "got": got, "msg": msg}
